@@ -289,6 +289,11 @@ class ExprMixin:
         st.assume(z3.Or(z3.And(r == -1, z3.Not(z3.Contains(s, sub))),
                         z3.And(r >= 0, r + m <= n, z3.SubString(s, r, m) == sub,
                                z3.Not(z3.Contains(z3.SubString(s, r + 1, n - r - 1), sub)))))
+        # the same fact as a decomposition  s = before ++ sub ++ after  (easier for the string solvers than substring arithmetic)
+        before = fresh("rfind_pre", T.Str); after = fresh("rfind_post", T.Str)
+        st.assume(z3.Implies(r >= 0, z3.And(s == z3.Concat(before, sub, after), z3.Length(before) == r,
+                                            z3.Not(z3.Contains(z3.Concat(z3.SubString(sub, 1, m - 1), after), sub)),
+                                            z3.SubString(s, r + m, n - r - m) == after)))
         return r
 
     def strip(self, st, s):
